@@ -384,6 +384,28 @@ func changeEndorsements(ctx context.Context, cops ChangeOps, endorsement *epb.VM
 	return certPath, nil
 }
 
+var errDryRunNotFound = errors.New("dry run: no workspace to read from")
+
+// dryRunOps implements ChangeOps for dry runs: nothing is read, written or committed.
+type dryRunOps struct{}
+
+func (dryRunOps) WriteOrCreateFiles(ctx context.Context, files ...*File) error {
+	for _, f := range files {
+		output.Infof(ctx, "dry run: would write %q", f.Path)
+	}
+	return nil
+}
+
+func (dryRunOps) ReadFile(context.Context, string) ([]byte, error) { return nil, errDryRunNotFound }
+
+func (dryRunOps) SetBinaryWritable(context.Context, string) error { return nil }
+
+func (dryRunOps) IsNotFound(err error) bool { return errors.Is(err, errDryRunNotFound) }
+
+func (dryRunOps) Destroy() {}
+
+func (dryRunOps) TryCommit(context.Context) (any, error) { return nil, nil }
+
 // Creates commit for extending the endorsement manifest and writing out the serialized endorsement
 // and attempts to submit. Submit may fail, thus "try".
 func tryChange(ctx context.Context, change func(context.Context, ChangeOps) (string, error)) error {
@@ -391,7 +413,8 @@ func tryChange(ctx context.Context, change func(context.Context, ChangeOps) (str
 	if err != nil {
 		return err
 	}
-	var cops ChangeOps
+	// A dry run has no workspace: its file operations find nothing and only log what they would do.
+	var cops ChangeOps = dryRunOps{}
 	if !ec.DryRun {
 		cops, err = ec.VCS.GetChangeOps(ctx)
 		if err != nil {
